@@ -102,6 +102,21 @@ def run(tier):
         else:
             ck.cov["n6_group_level_complete"] = False
             ck.cov["n6_group_level_note"] = f"run did not complete (rc={res.rc}); distinct so far {res.distinct}"
+    # neighbour pairs: A, then (in the same process, right after) B = A with only its LAST generator replaced - another valid stabilizer that shares
+    # n-1 generators with A and is, as a rule, in another class.  The expected class of B is decided by the spec (classify record), no TLC class known here.
+    nb = 0
+    for n, count in ((4, 150), (5, 300), (6, 500 if quick else 5000)):
+        pool = [j for j in jobs if j[0] == n]
+        for _ in range(count):
+            (_, codes, src, rep) = pool[rng.randrange(len(pool))]
+            cand = impl.neighbour_last_generators(n, codes)
+            if not cand:
+                continue
+            jobs.append((n, list(codes), src + " [pair A]", rep))
+            for p in rng.sample(cand, min(3, len(cand))):
+                jobs.append((n, list(codes[:-1]) + [p + impl.W2 * rng.randrange(2)], src + " [pair B: last generator replaced]", None))
+                nb += 1
+    ck.cov["neighbour_pairs"] = nb
     core.dbg('models done', len(jobs))
     # ---- spec -> code: drive the classifier --------------------------------------------------------
     # every third input is presented through ONE long-lived Stabilizer object per worker whose R, S, phases are overwritten (a stale per-object cache shows)
@@ -116,6 +131,8 @@ def run(tier):
             ck.violation(f"classify n={n} {codes}", f"determine_lc_class raises {r['exc']} on a valid stabilizer ({src})", {"n": n, "gens": codes, "src": src})
             continue
         traces.append({"op": "classify", "n": n, "gens": codes, "id": r["id"], "reid": r["reid"]})
+        if rep is None:
+            continue                     # no TLC class known for this input: judged by the classify record alone
         # bijection between ids and TLC classes, independent of get_graph
         a = id_of_rep.setdefault((n, rep), r["id"])
         b = rep_of_id.setdefault((n, r["id"]), rep)
